@@ -69,6 +69,14 @@ def gen_leaf(rng, nq, n_entries, classes=None, p_rel=0.40, p_dangling=0.05, reg_
         c['ch'] = rng.choice(CHN)
     if cls == 'DispersiveMeasure':
         c['tag'] = rng.choice(['', 'a', 'b'])
+    if cls == 'DetectorOperation':
+        full = rng.random() < 0.5
+        c['args'] = [rng.randint(3, 6), rng.randint(0, 2), rng.randint(0, 2), rng.randint(1, 3), rng.randint(1, 3)] if full else \
+                    [rng.randint(1, 4), rng.randint(0, 1), rng.choice([None, 0]), None, None]
+    if cls == 'LogicalObservableOperation':
+        c['args'] = [rng.randint(1, 4), rng.randint(0, 1)]
+    if cls == 'CoordinateShiftOperation':
+        c['args'] = [rng.randint(0, 2), rng.randint(0, 2)]
     c['rel'] = None
     if cls not in NO_REL_ARG:
         r = rng.random()
@@ -196,13 +204,18 @@ def c_env(case):
     return f"(mk_env {cz(t8(e['READOUT']))} {cz(t8(e['MICROWAVE']))} {cz(t8(e['FLUX']))} {cz(t8(e['RESET']))} {pairs})", reg_ids
 
 
+def c_sig_str(s):
+    return '"' + s.replace('"', '""') + '"%string'
+
+
 def c_oentry(o):
     r = o.get('rel')
     rel = 'None' if r is None else f"(Some ({RTY[r['t']]}, {cz(r['rs'])}, {cz(r['re'])}))"
     tag = TAGS.get(o.get('tag'), -1) if 'tag' in o else -1
     return (f"{{| oe_cls := {cz(CLS_ID[o['cls']])}; oe_chans := {clist([c_chan(x) for x in o['ch']])}; oe_s := {cz(o['s'])}; "
             f"oe_e := {cz(o['e'])}; oe_d := {cz(o['d'])}; oe_rel := {rel}; oe_tag := {cz(tag)}; oe_cmd := {cz(o.get('cmd', -1))}; "
-            f"oe_refpos := {cz(r['ref_pos'] if r else -1)}; oe_multi := {clist(['(%s, %s)' % (cz(a), cz(b)) for a, b in (r or {}).get('multi', [])])} |}}")
+            f"oe_refpos := {cz(r['ref_pos'] if r else -1)}; oe_multi := {clist(['(%s, %s)' % (cz(a), cz(b)) for a, b in (r or {}).get('multi', [])])}; "
+            f"oe_sig := {c_sig_str(o.get('sig', ''))} |}}")
 
 
 def c_obs(ob):
